@@ -311,12 +311,15 @@ class FoldedData:
             np.arange(self.nsubbands, dtype=np.float64) * chan_width + self.header.fch1
         )
         tsamp = self._fold_period / self.nbins
-        drifts = params.compute_dmdelays(
-            freqs,
-            delta_dm,
-            tsamp,
-            self.header.fch1,
-            in_samples=True,
+        # compute_dmdelays squeezes: keep one entry per sub-band for single-band cubes
+        drifts = np.atleast_1d(
+            params.compute_dmdelays(
+                freqs,
+                delta_dm,
+                tsamp,
+                self.header.fch1,
+                in_samples=True,
+            ),
         )
         bin_drifts = drifts - self._fph_shifts
         self._fph_shifts = drifts
